@@ -52,7 +52,7 @@ def replay_adaptive(prop):
                 .replace("@POUT@", _arr(vals, "g_pout", 8, 2)).replace("@START@", _arr(vals, "g_start", 2))
                 .replace("@STEP@", RP.cxx_double(vals["a_step"])).replace("@INC@", RP.cxx_double(vals["a_inc"])).replace("@DEC@", RP.cxx_double(vals["a_dec"]))
                 .replace("@TOL@", RP.cxx_double(vals["a_tol"])).replace("@MAXIT@", "(%s)" % vals["a_maxit"]))
-        return RP.write_and_run(prop, job.name + "." + ob["name"], hdr, ['"TasmanianOptimization.hpp"'], body, "  return main_replay();", lib="dream")
+        return RP.write_and_run(prop, job.name + "." + ob["name"], hdr, ['"TasmanianOptimization.hpp"'], body, "  main_replay();", lib="dream")
     return rp
 
 def jobs(tier, seed, prop):
